@@ -7,6 +7,7 @@ mod c04;
 mod c06;
 mod c07;
 mod c09;
+mod c12;
 mod report;
 mod c13;
 mod c15;
@@ -90,6 +91,7 @@ fn main() {
         "C06" => c06::run(&tier),
         "C07" => c07::run(&tier),
         "C09" => c09::run(&tier),
+        "C12" => c12::run(&tier),
         "C13" => c13::run(&tier),
         "C15" => c15::run(&tier),
         _ => {
